@@ -20,6 +20,8 @@ import WcModel.Proofs.CharLemmas
      name made of code units below 256 (`fullRange_latin1`);
    * per-byte semantics: `?`, `*`, brackets and classes test one code unit at a time by
      construction of `Re.M` (`consume1`), for code units 0x80–0xff as for any other.
+  For EVERY pattern string and configuration the two passes are related (`Properties/C18all.lean`:
+  `bytes_str_twin`, `bytes_str_same_matches`, `bytes_str_winDrive`).
   Checked, not proved: glob / WcMatch result sequences on bytes roots; TypeError on mixed types.
 -/
 namespace WcModel.C18
